@@ -68,6 +68,7 @@ type c03Harness struct {
 	cancels  map[string]context.CancelFunc
 	exitErr  map[string]string
 	closed   bool
+	inflight map[string]int // completion messages released but not yet received, per evaluation
 }
 
 func tsName(s TaskState) string { return s.String() }
@@ -117,7 +118,12 @@ func (h *c03Harness) hook(ev string, args ...interface{}) {
 	switch ev {
 	case "EvalStart":
 		h.evStatus[e] = "busy"
-	case "EvalTop", "EvalRecv", "EvalReturn":
+	case "EvalRecv":
+		h.evStatus[e] = "busy"
+		if h.inflight[e] > 0 {
+			h.inflight[e]--
+		}
+	case "EvalTop", "EvalReturn":
 		h.evStatus[e] = "busy"
 	case "EvalIdle":
 		h.evStatus[e] = "idle"
@@ -167,6 +173,7 @@ func (h *c03Harness) hook(ev string, args ...interface{}) {
 				gate = w.gate
 			} else {
 				delete(h.waiters, e+"/"+t)
+				h.inflight[e]++
 			}
 		}
 	case "TaskState":
@@ -190,8 +197,11 @@ func (h *c03Harness) hook(ev string, args ...interface{}) {
 // quiescent: every started evaluation is idle or has exited, every expected ExecRun was seen, and
 // every waiter goroutine whose task is in a terminal state has arrived at the gate.
 func (h *c03Harness) quiescentLocked() bool {
-	for _, s := range h.evStatus {
+	for e, s := range h.evStatus {
 		if s == "busy" {
+			return false
+		}
+		if s != "exit" && h.inflight[e] > 0 {
 			return false
 		}
 	}
@@ -294,9 +304,7 @@ func (h *c03Harness) apply(step []string) (applied bool) {
 		ok := w != nil && w.atGate
 		if ok {
 			delete(h.waiters, k)
-			if h.evStatus[step[1]] == "idle" {
-				h.evStatus[step[1]] = "busy" // it will receive
-			}
+			h.inflight[step[1]]++ // it will receive
 		}
 		h.mu.Unlock()
 		if !ok {
@@ -335,7 +343,7 @@ func runC03Sched(w *vtr.W, tr int, sc *c03Sched) (stalled bool) {
 	h := &c03Harness{w: w, tr: tr, names: map[*Task]string{}, tasks: map[string]*Task{},
 		evals: map[*state]string{}, evStatus: map[string]string{}, waiters: map[string]*c03Waiter{},
 		active: map[string]bool{}, tstate: map[string]string{}, gated: !sc.Free,
-		changed: make(chan struct{}, 1), cancels: map[string]context.CancelFunc{}, exitErr: map[string]string{}}
+		changed: make(chan struct{}, 1), inflight: map[string]int{}, cancels: map[string]context.CancelFunc{}, exitErr: map[string]string{}}
 	for i, n := range sc.Tasks {
 		t := &Task{Name: TaskName{Op: n, NumShard: 1, Shard: 0, InvIndex: uint64(i + 1)}}
 		h.tasks[n] = t
